@@ -66,15 +66,15 @@ def run : Runner
         (f', tokB r :: st.2)) (some m, [])
     pure { model := s!"EXT {ext} RES {",".intercalate res.reverse} {C09.bitsTok fin}" }
   | "blk", [_, b, n, t, f, _txs], impl => do
-    let m ← C09.parseMsg b n t f
+    let fm : Bloom.Filter ← if b == "nil" then some none else (C09.parseMsg b n t f).map some
     let (ext, implRes) ← splitExt impl
     let txs ← if ext == "-" then some [] else (ext.splitOn "|").mapM parseExtTx
     let block := txs.toArray
-    let s := GetMatchedIndices bloomOps bloomSame 3000000 block (some m)
+    let s := GetMatchedIndices bloomOps bloomSame 3000000 block fm
     -- the reference (unrepaired, exponential) scan, when it is affordable: the repaired scan must agree with it
     -- (the reference scan is exponential in the chain length: only run it on blocks of at most 12 transactions)
-    let sref := if txs.length ≤ 12 then GetMatchedIndicesRef bloomOps 200000 block (some m)
-                else { filter := some m, matched := [], outOfFuel := true }
+    let sref := if txs.length ≤ 12 then GetMatchedIndicesRef bloomOps 200000 block fm
+                else { filter := fm, matched := [], outOfFuel := true }
     let idx := sortNats s.matched
     let idxTok := natsTok idx
     let bits := C09.bitsTok s.filter
